@@ -67,6 +67,10 @@ pub enum Pre {
 
 #[derive(Clone, Debug, Serialize, Deserialize)]
 pub struct Step {
+	/// first mine (overdue transactions only) up to the height `earliest expiry of a still unspent HTLC output
+	/// of a confirmed commitment + offset`, so that schedules reach the expiry boundary by construction
+	#[serde(default)]
+	pub advance: Option<i8>,
 	pub pre: Vec<Pre>,
 	pub incl: Incl,
 	/// deliver peer messages / forwards after the block (events are always processed)
@@ -156,6 +160,7 @@ pub struct Stats {
 	pub benign_stale: u64,
 	pub rbf_bumps: u64,
 	pub competing: u64,
+	pub competing_commitments: u64,
 	pub bump_events: u64,
 	pub bump_target_raises: u64,
 	pub sweeps: u64,
@@ -405,6 +410,9 @@ impl<'a> Run<'a> {
 			Ok(_) | Err(Reject::Duplicate) => Ok(()),
 			Err(Reject::MempoolConflict(_)) => {
 				self.stats.benign_conflicts += 1;
+				if tx.input.iter().any(|i| self.sim.chans.iter().any(|c| c.funding_tx.compute_txid() == i.previous_output.txid)) {
+					self.stats.competing_commitments += 1;
+				}
 				Ok(())
 			},
 			Err(Reject::AlreadySpent(_, by)) => {
@@ -976,6 +984,21 @@ impl<'a> Run<'a> {
 		ov.insert(ConfirmationTarget::MaximumFeeEstimate, cur.max(rate));
 	}
 
+	/// see [`Step::advance`]
+	pub fn advance(&mut self, offset: i8) -> CaseResult {
+		for _ in 0..150 {
+			let target = self.closed.iter().flat_map(|cl| cl.htlcs.iter().filter(|h| self.sim.chain.is_unspent(&OutPoint { txid: cl.txid, vout: h.vout })).map(|h| h.cltv)).min();
+			let Some(t) = target else { return Ok(()) };
+			let want = (t as i64 + offset as i64).max(0) as u32;
+			// the step's own block follows
+			if self.sim.chain.height() + 1 >= want {
+				return Ok(());
+			}
+			self.block(&Incl::Overdue, true)?;
+		}
+		Ok(())
+	}
+
 	pub fn apply_pre(&mut self, p: &Pre) -> CaseResult {
 		let n = self.n();
 		match p {
@@ -1076,7 +1099,7 @@ impl<'a> Run<'a> {
 
 	/// deterministic tail: confirm everything as it appears until all closed channels are resolved
 	pub fn tail(&mut self, max_blocks: u32) -> CaseResult {
-		let incl = if self.case.tail_reverse { Incl::Reverse } else { Incl::All };
+		let incl = if self.case.tail_reverse { Incl::Reverse } else { Incl::Overdue };
 		let mut quiet = 0;
 		for _ in 0..max_blocks {
 			if self.all_resolved() {
@@ -1316,6 +1339,7 @@ impl<'a> Run<'a> {
 		ctx.label_if(st.late_claims > 0, "late-preimage-after-close");
 		ctx.label_if(st.rbf_bumps > 0, "claim-re-issued");
 		ctx.label_if(st.competing > 0, "competing-claims-in-mempool");
+		ctx.label_if(st.competing_commitments > 0, "competing-commitments-in-mempool");
 		ctx.label_if(st.bump_events > 0, "bump-transaction-events");
 		ctx.label_if(st.bump_target_raises > 0, "bump-target-raised");
 		ctx.label_if(st.benign_stale > 0, "stale-broadcast-tolerated");
@@ -1329,7 +1353,7 @@ impl<'a> Run<'a> {
 	}
 
 	pub fn nontrivial(&self) -> bool {
-		!self.unfinished && self.closed.iter().any(|cl| !cl.htlcs.is_empty()) && (self.stats.rbf_bumps > 0 || self.stats.competing > 0 || self.stats.bump_target_raises > 0)
+		!self.unfinished && self.closed.iter().any(|cl| !cl.htlcs.is_empty()) && (self.stats.rbf_bumps > 0 || self.stats.competing > 0 || self.stats.competing_commitments > 0 || self.stats.bump_target_raises > 0)
 	}
 }
 
@@ -1440,6 +1464,9 @@ fn run_inner(r: &mut Run, ctx: &mut Ctx, tail_blocks: u32) -> CaseResult {
 	}
 	r.close()?;
 	for st in r.case.steps.iter() {
+		if let Some(off) = st.advance {
+			r.advance(off)?;
+		}
 		for p in st.pre.iter() {
 			r.apply_pre(p)?;
 		}
